@@ -203,6 +203,22 @@ impl Model for Hist {
                         v.push(Action::Withdraw { u, b, amt: fl - 1, all: false });
                         v.push(Action::Withdraw { u, b, amt: fl + 1, all: false });
                     }
+                    if al.rich_amounts && world::try_bank(s, &self.w.banks[b].key).is_some() {
+                        // bank-relative amounts: what the bank's lenders are owed beyond what is lent out
+                        // (the utilisation boundary) and everything the liquidity vault holds (which also
+                        // contains the uncollected fees)
+                        let n = rf::bank_nums(s, &self.w.banks[b]);
+                        let free = n.deposits() - n.liabs();
+                        let free = if free > rf::qi(0) { floor_u64(&free) } else { 0 };
+                        let mut xs = vec![free, free + 1, n.vault as u64];
+                        xs.sort();
+                        xs.dedup();
+                        for x in xs {
+                            if x > 1 && x <= fl && x != fl / 2 && x != fl - 1 {
+                                v.push(Action::Withdraw { u, b, amt: x, all: false });
+                            }
+                        }
+                    }
                 }
                 if al.borrow && (!al.prune || !has_asset) {
                     v.push(Action::Borrow { u, b, amt: 1 });
